@@ -80,9 +80,13 @@ def designed_variants(rng):
                        {"name": "b", "t": "data", "mode": "dyn", "size": {"form": "field", "e": ["f", "a"]}}])
     out.append(V("desc-auto", described("autolength"), {}, rng))     # same field text, descriptor with a sync hook ...
     out.append(V("desc-plain", described("plain"), {}, rng))         # ... and without one
+    # the same pair without source annotation: the per-field code of the two modules is identical, they differ only in the
+    # calls that keep described fields in step (the wrapper around the per-field code)
+    out.append(V("desc-auto-noann", described("autolength"), {"annotate": False}, rng))
+    out.append(V("desc-plain-noann", described("plain"), {"annotate": False}, rng))
     for v in out:
         v.kind = "designed"
-    twins = {"aca1bab2": "bab1aca2", "desc-auto": "desc-plain", "i1i2": "i2i1", "i1d2": "d1i2", "i2i1-unpackonly": "i1i2-unpackonly", "i2i1-packonly": "i1i2-packonly"}
+    twins = {"aca1bab2": "bab1aca2", "desc-auto": "desc-plain", "desc-auto-noann": "desc-plain-noann", "i1i2": "i2i1", "i1d2": "d1i2", "i2i1-unpackonly": "i1i2-unpackonly", "i2i1-packonly": "i1i2-packonly"}
     for a, b in twins.items():
         for v in out:
             if v.tag == a:
